@@ -82,3 +82,11 @@ def c02_reencode(header_value, normalised, channel):
     """`normalised` is the header the round-trip lemma shows the decoder returns
     (every set property replaced by its documented normalisation)."""
     return frame.marshal(header_value, channel), frame.marshal(normalised, channel)
+
+
+from pamqp import decode
+
+
+def c03_roundtrip(value, rest):
+    data = encode.encode_table_value(value)
+    return data, decode.embedded_value(data + rest)
